@@ -29,21 +29,21 @@ ASSUMPTIONS = ["dict iteration order = insertion order (CPython >= 3.7)",
                "reading: target names are normalised (fully_normalize_name) while the link fragment is compared verbatim; a case-variant link counts as missing",
                "reading: 'the link's own line' is the line docutils/MyST assign to the reference node (first line of its inline block); generated links sit on that line",
                "reading: an explicit name defined twice is invalidated by docutils (Duplicate explicit target name) and then counts as not existing"]
-LEVEL_TEXT = ("Proof (Coq) over a Gallina transcription of ResolveAnchorIds.apply, for all registries, slug tables and reference lists: "
-              "explicit targets win over slugs and slugs are used only without an explicit target (C09_resolution_order), the explicit "
-              "table is characterised declaratively from nametypes/nameids/ids (C09_explicit_spec), a missing target gives exactly one "
-              "xref_missing warning at the link's line with the text kept or '#name' (C09_missing_warns_once, C09_warnings_exact), "
-              "the reference list is preserved in length/order/explicit text (C09_refs_preserved), empty text is filled from the title or "
-              "'#name' (C09_implicit_text); under Sphinx a link the document cannot resolve becomes one pending_xref at the link's line "
-              "and, composed with the C12 model of MystReferenceResolver, warns exactly once iff nothing in the project resolves it "
-              "(C09_sphinx_fallthrough). Refuted/open: an empty link to a missing target shows no text (C09_missing_empty_text_refuted). "
-              "Every run regenerates the Gallina definition of ResolveAnchorIds.apply from transforms.py and re-proves it equal to the model "
-              "(C09_apply_src_is_apply), so C09_resolution_order_src / C09_missing_warns_once_src / C09_implicit_text_src hold for the code as it "
-              "is now; the differential correspondence ties the registries (inputs) and the mapping to the running code.")
-LEVEL_NOTE = ("Trusted: Coq kernel; hand transcription (checked by correspondence); docutils registries and traversal order are inputs "
-              "(read from the real document), not modelled; Sphinx: the resolver after the pending_xref is the C12 builder's model "
-              "(coq/XRef/XRefModel.v, tied to the code by the C12 correspondence), composed here, its Sphinx-side oracles (other domains, "
-              "intersphinx) are premises. Open finding: text:missing-empty-not-filled.")
+LEVEL_TEXT = ("Proof (Coq), 16 theorems, all closed, over a Gallina model of ResolveAnchorIds.apply, for all registries, slug tables and reference "
+              "lists: the explicit table is characterised from nametypes/nameids/ids (C09_explicit_spec), explicit targets win over slugs and slugs "
+              "are used only without one (C09_resolution_order), a missing target gives exactly one xref_missing warning at the link's line and "
+              "nothing else warns (C09_missing_warns_once, C09_warnings_exact, C09_missing_suppressed), references are preserved in number / order / "
+              "text (C09_refs_preserved), empty text is filled from the title or '#name' (C09_implicit_text); under Sphinx an unresolved link becomes "
+              "one pending_xref at the link's line and, composed with the C12 model of MystReferenceResolver, warns exactly once iff nothing in the "
+              "project resolves it (C09_missing_sphinx_pending, C09_sphinx_fallthrough). EVERY RUN regenerates the Gallina definition of the method "
+              "from transforms.py and re-proves it equal to the model (C09_apply_src_is_apply), so C09_resolution_order_src, "
+              "C09_missing_warns_once_src, C09_implicit_text_src hold for the code as it is now. Refuted/open: an empty link to a missing target "
+              "shows no text (C09_missing_empty_text_refuted); behaviours before the fix commits are kept as *_before_fix_refuted witnesses.")
+LEVEL_NOTE = ("Remaining trust: the domain mapping (coq/Refs/AnchorsOps.v + the table in gen/c09_src.py) and the statement walker; the docutils "
+              "registries (note_explicit_target / set_duplicate_name_id / PropagateTargets, dupnames included) and findall order are INPUTS read from "
+              "the real document on every correspondence case, not modelled - renderer mistakes in filling them are caught only by the search oracle; "
+              "clean_astext and normalizeLink are oracles (real functions feed the model); the Sphinx resolver is the C12 builder's model "
+              "(coq/XRef/XRefModel.v) with its Sphinx-side oracles as premises. Open finding: text:missing-empty-not-filled (pinned fixture).")
 
 _KINDS = None
 
